@@ -353,6 +353,14 @@ def run(ctx, rep):
         ic = call_blocks(b, r"CrcWriter::<W, C>::into_checksum$")
         wa = call_blocks(b, r"std::io::Write::write_all$")
         bu = call_blocks(b, r"BitWrite::build(_with)?$")
+        if not bu:
+            # the header is built by a closure handed to a shared "write through a CRC-8 writer" helper
+            for bi_, t_ in b.calls():
+                if re.search(r"^std::ops::(FnOnce::call_once|FnMut::call_mut|Fn::call)$", t_["f"].get("path") or ""):
+                    for k_, x_ in origins(b, t_["a"][0]):
+                        cb_ = F.body(x_.get("adt") or "") if k_ == "agg" and x_.get("ak") == "closure" else None
+                        if cb_ is not None and any(re.search(r"BitWrite::build(_with)?$", callee_name(t2)) for _, t2 in cb_.calls()):
+                            bu.append((bi_, t_))
         good = len(ic) == 1 and len(wa) == 1 and len(bu) == 1 and b.dominates(bu[0][0], ic[0][0]) and b.dominates(ic[0][0], wa[0][0])
         ok_sites = [bi for bi, s in agg_sites(b, "std::result::Result", "Ok") if s["d"]["l"] == 0]
         good = good and all(b.dominates(wa[0][0], o) for o in ok_sites)
